@@ -785,8 +785,26 @@ func check(id, tier string) int {
 
 	fmt.Printf("%s %s: units=%d evaluations=%d states=%d transitions=%d traces=%d distinct_nontrivial=%d outcomes=%d exhaustive=%v build=%.0fs wall=%.0fs\n",
 		id, tier, len(ulist), tot.Evals, tot.States, tot.Trans, tot.Traces, tot.Nontrivial, len(outcomes), tot.Exhaustive, buildS, time.Since(start).Seconds())
-	for _, kh := range knownHits {
-		fmt.Printf("KNOWN-FINDING: property=%s %s [sig=%s instances=%v]\n", id, kh["what"], kh["sig"], kh["instances"])
+	{ // one line per listed finding, however many signatures / instances matched it
+		type agg struct {
+			what string
+			sigs int
+			inst int64
+		}
+		m := map[string]*agg{}
+		var order []string
+		for _, kh := range knownHits {
+			k := kh["key"].(string)
+			if m[k] == nil {
+				m[k] = &agg{what: kh["what"].(string)}
+				order = append(order, k)
+			}
+			m[k].sigs++
+			m[k].inst += kh["instances"].(int64)
+		}
+		for _, k := range order {
+			fmt.Printf("KNOWN-FINDING: property=%s %s [matched signatures=%d instances=%d]\n", id, m[k].what, m[k].sigs, m[k].inst)
+		}
 	}
 	if os.Getenv("VERIF_KEEP") == "" {
 		for _, b := range builts {
